@@ -188,8 +188,9 @@ pub fn gen_acct(rng: &mut Rng, w: &World) -> Acct {
 }
 fn small_idx(rng: &mut Rng, n: usize) -> u8 {
     // mostly in range, sometimes one past / far
-    if n > 100 && rng.chance(1, 2) {
-        return *rng.pick(&[126u8, 127, 128, 129, 199, 254, 255]);
+    if n > 100 && rng.chance(3, 4) {
+        // the indices where a narrower or signed counter, or a cut-off at 255 / 256, would go wrong
+        return *rng.pick(&[127u8, 128, 129, 254, 255, 255, 255, n.saturating_sub(1).min(255) as u8, n.saturating_sub(2).min(255) as u8]);
     }
     match rng.below(8) {
         0 => n.min(255) as u8,
@@ -471,7 +472,7 @@ pub fn gen_scenario(rng: &mut Rng, precondition: bool) -> Scenario {
     // one data value per key (functional pool)
     let datas: Vec<Vec<u8>> = w.keys.iter().map(|_| { let l = match rng.below(5) { 0 => 0, 1 => 32, _ => rng.range(1, 90) as usize }; rng.bytes(l) }).collect();
     // every 50th scenario is large: more than 255 accounts in the instruction, or more than 255 stored configs
-    let big = rng.below(50) == 0;
+    let big = rng.below(25) == 0;
     let big_metas = big && rng.chance(1, 2);
     let nm = if big_metas { *rng.pick(&[255usize, 256, 257, 300]) } else { rng.below(7) as usize };
     let mut initial = Vec::new();
@@ -484,7 +485,20 @@ pub fn gen_scenario(rng: &mut Rng, precondition: bool) -> Scenario {
     let mut cfgs = Vec::new();
     let mut dls: Vec<usize> = initial.iter().map(|a| a.data.len()).collect();
     for _ in 0..nc {
-        let e = gen_extra(rng, &w, dls.len(), &dls);
+        let e = if big_metas && rng.chance(3, 4) {
+            // configs that certainly resolve, referring to high account indices
+            let n = dls.len();
+            let x = *rng.pick(&[127usize, 128, 129, 254, 255, 255, n - 1, n - 2]).min(&(n - 1)).min(&255);
+            let (s, wr) = (rng.chance(1, 3), rng.chance(1, 2));
+            match rng.below(3) {
+                0 => ExtraAccountMeta::new_with_seeds(&[Seed::Literal { bytes: vec![7, 7] }, Seed::AccountKey { index: x as u8 }], s, wr).unwrap(),
+                1 => ExtraAccountMeta::new_with_seeds(&[Seed::AccountData { account_index: x as u8, data_index: 0, length: dls[x].min(8) as u8 }], s, wr).unwrap(),
+                _ if dls[x] >= 32 => ExtraAccountMeta::new_with_pubkey_data(&PubkeyData::AccountData { account_index: x as u8, data_index: (dls[x] - 32).min(255) as u8 }, s, wr).unwrap(),
+                _ => ExtraAccountMeta::new_external_pda_with_seeds(x.min(127) as u8, &[Seed::AccountKey { index: x as u8 }], s, wr).unwrap(),
+            }
+        } else {
+            gen_extra(rng, &w, dls.len(), &dls)
+        };
         dls.push(rng.range(0, 60) as usize);
         cfgs.push(e);
     }
@@ -855,6 +869,13 @@ pub fn run_c07(ctx: &Ctx) -> Report {
         for (name, accts) in variants {
             let got = run_check(&accts, &sc.w.ix, &sc.w.pid, &sc.tlv);
             rep.count(name);
+            if name == "accepted" && accts.len() >= 256 {
+                rep.count(if got.is_ok() { "accepted-list:>=256-accounts:ok" } else { "accepted-list:>=256-accounts:err" });
+                let refs255 = sc.cfgs.iter().any(|c| { let b = bytemuck::bytes_of(c); (b[0] == 1 || b[0] >= 128) && b[1..33].windows(2).any(|w| (w[0] == 3 || w[0] == 4) && w[1] == 255) });
+                if refs255 {
+                    rep.count(if got.is_ok() { "accepted-list:refers-to-index-255:ok" } else { "accepted-list:refers-to-index-255:err" });
+                }
+            }
             rep.count(if got.is_ok() { "check:accepted" } else { "check:rejected" });
             // expected by the positional-triple rule, with the independent resolver
             let view: Vec<(Pubkey, Option<Vec<u8>>)> = accts.iter().map(|a| (a.key, Some(a.data.clone()))).collect();
